@@ -20,7 +20,7 @@ from harness import leapfrog as L
 from harness.mcmc_kit import Script, ScriptedGen
 
 
-def orbit_part(ck, tier):
+def orbit_part(ck, tier, only_box=False, reversibility=True):
     cfgs = L.configs()
     zset = [-2, 0, 1] if tier == "quick" else [-3, -2, -1, 0, 1, 2]
     nset = [1, 2, 3] if tier == "quick" else [1, 2, 3, 4]
@@ -32,6 +32,8 @@ def orbit_part(ck, tier):
     D = L.D
     for b in r.printed:
         c = cfgs[b["cf"]]
+        if only_box and not c["box"]:
+            continue
         plog, glog = [], []
         ch, q = L.build_chain(c, b["t0"], plog, glog)
         ident = {"config": {k: c[k] for k in ("n", "A", "b", "T", "en", "ed", "minv", "md", "box", "mass")},
@@ -71,7 +73,7 @@ def orbit_part(ck, tier):
                                                                       "got": [h0, h1]}, site="HamiltonianChain.hamiltonian")
         # reversibility on the implementation itself
         on_wall = c["box"] and any((x - c["blo"] * D) % ((c["bhi"] - c["blo"]) * D) == 0 for x in b["t0"])
-        if not on_wall:
+        if not on_wall and reversibility:
             t2, r2 = ch.run_leapfrog(np.array(t1, dtype=float).copy(), -np.array(r1, dtype=float), b["n"])
             back = np.array_equal(t2, t0) and np.array_equal(-np.asarray(r2), r0)
             diag = all(c["minv"][i][j] == 0 for i in range(c["n"]) for j in range(c["n"]) if i != j)
@@ -87,6 +89,8 @@ def orbit_part(ck, tier):
                        "H0": b["h0"] / b["hden"], "H1": b["h1"] / b["hden"]})
     ck.count("leapfrog_state_machine", "orbits_replayed", len(r.printed))
     ck.traces += len(r.printed)
+    if not reversibility:
+        return
     # spec-level demonstration of the matrix-mass / wall finding (expected to be violated: TLC exhibits the counterexample)
     mod = L.MC_LF % {"cfgs": L.tla_cfg(cfgs[8]), "zset": "{-2, 0, 1}", "nset": "{1, 2}"}
     cfg = L.CFG_LF % L.D
